@@ -26,18 +26,15 @@ M = [
     ("C02", "interp_without_boundary_coords", S + "GridOperation.py",
      "            mesh_points_grid = self.grid.coordinate_array_with_boundary\n        return Interpolation.interpolate_points(self.get_component_grid_values(component_grid, mesh_points_grid),",
      "            mesh_points_grid = self.grid.coordinate_array\n        return Interpolation.interpolate_points(self.get_component_grid_values(component_grid, mesh_points_grid),"),
-    ("C03", "skip_raise_lmax", S + "spatiallyAdaptiveSingleDimension2.py",
+    ("C04", "skip_raise_lmax", S + "spatiallyAdaptiveSingleDimension2.py",
      "                self.raise_lmax(d, update_d)\n                refinement_container_d.update_values(update_d)",
      "                self.lmax[d] += update_d\n                refinement_container_d.update_values(update_d)"),
-    ("C03", "max_level_dict_not_reset", S + "spatiallyAdaptiveSingleDimension2.py",
+    ("C04", "max_level_dict_not_reset", S + "spatiallyAdaptiveSingleDimension2.py",
      "        self.subtraction_value_cache = {}\n        self.max_level_dict = {}\n        self.refinement.apply_remove(sort=True)",
      "        self.subtraction_value_cache = {}\n        self.refinement.apply_remove(sort=True)"),
-    ("C03", "version6_partial_sum", S + "spatiallyAdaptiveSingleDimension2.py",
+    ("C04", "version6_partial_sum", S + "spatiallyAdaptiveSingleDimension2.py",
      "                    partial_sum_temp = sum([1 for i in range(d+1) if max_coarsenings[i] >= subtraction_value - m])\n                    if partial_sum + partial_sum_temp <= subtraction_value:\n                        m += 1\n                    if partial_sum + partial_sum_temp >= subtraction_value:\n                        break\n                return self.modify_according_to_levelvec(m,d,max_level,levelvec)\n            if self.version == 7:",
      "                    partial_sum_temp = sum([1 for i in range(d) if max_coarsenings[i] >= subtraction_value - m])\n                    if partial_sum + partial_sum_temp <= subtraction_value:\n                        m += 1\n                    if partial_sum + partial_sum_temp >= subtraction_value:\n                        break\n                return self.modify_according_to_levelvec(m,d,max_level,levelvec)\n            if self.version == 7:"),
-    ("C04", "coarsen_below_lmin", S + "spatiallyAdaptiveSingleDimension2.py",
-     "        subtraction_value = min(subtraction_value, levelvec[d] - self.lmin[d])\n        return subtraction_value",
-     "        subtraction_value = min(subtraction_value, levelvec[d] - 1)\n        return subtraction_value"),
     ("C04", "extsplit_collision_disabled", S + "RefinementObject.py",
      "            return self.levelvec_dict[levelvec_coarsened] != levelvec", "            return False"),
     ("C04", "modified_basis_weight", S + "Grid.py",
@@ -55,8 +52,6 @@ M = [
     ("C06", "selection_strict", S + "RefinementContainer.py", "            if self.refinementObjects[i].benefit >= tolerance:", "            if self.refinementObjects[i].benefit > tolerance:"),
     ("C06", "search_position_not_reset", S + "RefinementContainer.py", "    def refinement_postprocessing(self) -> None:\n        self.searchPosition = 0\n",
      "    def refinement_postprocessing(self) -> None:\n        pass\n"),
-    ("C07", "extend_without_decrement", S + "RefinementObject.py", "                coarseningValue = coarsening_level - 1\n            # in case we have refined complete scheme",
-     "                coarseningValue = coarsening_level - (1 if self.needExtendScheme < 4 else 0)\n            # in case we have refined complete scheme"),
     ("C07", "update_keeps_levelvec_dict", S + "RefinementObject.py", "        self.coarseningValue += update_info\n        self.levelvec_dict = {}", "        self.coarseningValue += update_info"),
     ("C07", "contains_strict", S + "RefinementObject.py",
      "    def contains(self, point):\n        contained = True\n        for d in range(self.dim):\n            if point[d] < self.start[d] or point[d] > self.end[d]:\n                contained = False\n                break\n        return contained\n\n    def subset_of_contained_points(self, points):\n        contained_points = []\n        for p in points:\n            if self.contains(p):\n                contained_points.append(p)\n        return contained_points\n\n\n# This is the special class for the RefinementObject defined in the split extend scheme\nclass RefinementObjectCell",
@@ -82,7 +77,6 @@ M = [
     ("C11", "balanced_coefficient", S + "Extrapolation.py", "        coefficient = (-1) / (4 ** k - 1)", "        coefficient = (-1) / (4 ** k - 1) if k < 3 else (-1) / (2 ** k - 1)"),
     ("C12", "vectorized_product_peak", S + "Function.py", "        result = np.prod(self.coeffs ** (-2) + (coordinates - self.midPoint) ** (2), axis=-1)",
      "        result = np.prod(self.coeffs ** (2) + (coordinates - self.midPoint) ** (2), axis=-1)"),
-    ("C12", "old_dict_revived", S + "Function.py", "        self.old_f_dict = {}\n        self.f_dict = {}", "        self.old_f_dict = {**self.old_f_dict, **self.f_dict}\n        self.f_dict = {}"),
     ("C12", "c0_integral_branch", S + "Function.py", "            if end[d] > self.midPoint[d]:\n                if start[d] > self.midPoint[d]:",
      "            if end[d] > self.midPoint[d]:\n                if start[d] >= self.midPoint[d] - 0.05:"),
     ("C13", "max_evaluations_inclusive", S + "spatiallyAdaptiveBase.py", "            if max_evaluations is not None and num_evaluations > max_evaluations:",
